@@ -222,6 +222,13 @@ def r4(ctx):
                 bad.append("selected_reads = %s" % u(v)[:60])
         else:
             bad.append("selected_reads bound by %s" % (v[0],))
+    # the helper adds to the set it is given as `selected_reads` (and returns that same set): handing the set over counts too
+    hparams = util.params_of(ctx.func(RS + ".readselection_helper").node)
+    if "selected_reads" in hparams:
+        k_sel = hparams.index("selected_reads")
+        for c_ in ctx.prog.calls_in(rs.node):
+            if u(c_.func) == "readselection_helper" and len(c_.args) > k_sel and u(c_.args[k_sel]) == "selected_reads":
+                n_in += 1
     ctx.ob(rs.qual, "selection-only-receives-helper-results", not bad and n_in >= 2, rs.loc(), "selected_reads starts empty and only receives results of readselection_helper, which registers every selected read with the coverage monitor" if not bad else "%s puts reads into the selection that never passed the coverage test / monitor" % bad[0])
     h = ctx.func(RS + ".readselection_helper")
     grow = [c for c in ctx.prog.calls_in(h.node) if u(c.func) in ("selected_reads.update", "selected_reads.add")]
@@ -246,11 +253,9 @@ def r4(ctx):
     ok = len(loops) == 1 and u(loops[0].iter) == util.params_of(cp.node)[1] and any(u(c.func) == "priorityqueue.c_push" and u(c.args[1]) == u(loops[0].target) for c in ctx.prog.calls_in(cp.node))
     ctx.ob(cp.qual, "queue-items-are-the-given-indices", ok, cp.loc(), "every given index is pushed as item" if ok else "queue construction changed")
     sr = ctx.func(PH + ".select_reads")
-    si = util.single_def(sr.node, "selected_indices")
-    ok = si is not None and u(si) == "readselection(readset, max_coverage, preferred_source_ids)"
     rets = [n for n in walk_function(sr.node) if isinstance(n, ast.Return)]
-    sd = util.single_def(sr.node, "selected_reads")
-    ok = ok and len(rets) == 1 and u(rets[0].value) == "selected_reads" and sd is not None and u(sd) == "readset.subset(selected_indices)"
+    full = u(util.expand_single_defs(sr.node, rets[0].value)) if len(rets) == 1 and rets[0].value is not None else None
+    ok = full == "readset.subset(readselection(readset, max_coverage, preferred_source_ids))"
     ctx.ob(sr.qual, "returns-subset-of-the-input", ok, sr.loc(), "select_reads returns readset.subset(readselection(readset, max_coverage, ...))" if ok else "select_reads does not return the subset of its input chosen by readselection with the given cap")
 
 
